@@ -83,6 +83,92 @@ theorem accepts_runs (portable : Bool) (prog : List TStep) (h : accepts prog = t
   | none => simp [hl] at h
   | some c => cases c <;> simp [hl, isTerminal] at h ⊢
 
+/-! ### the whole model, layer by layer, read from the table
+
+`typechecks` below is defined from the extracted table only: which `field` method exists on a `FieldsBuilder<F, K>`, what its closure
+bound demands, and which calls the signatures allow inside the closure; likewise for variants and for the type builder. -/
+
+def kindName : FKind → Str | .unit => kNone | .named => kNamed | .unnamed => kUnnamed
+def fieldMethod (portable : Bool) : Str := if portable then mFieldPortable else mField
+
+/-- every member of the list is added by a `field` call whose closure bound the member's calls satisfy -/
+def fieldsTypecheck (portable : Bool) (fp : FieldsProg) : Prop :=
+  ∀ calls ∈ fp.fields, ∃ init tgt, closureOf (bFields, [form portable, kindName fp.kind]) (fieldMethod portable) = some (init, tgt) ∧
+    runSig Expected.Typestate.sigs init (calls.map (fMethod portable)) = some tgt
+
+/-- **member lists**: the table admits the list exactly when the model's `fieldsOk` does -/
+theorem fields_typecheck_iff (portable : Bool) (fp : FieldsProg) : fieldsTypecheck portable fp ↔ fieldsOk fp = true := by
+  obtain ⟨kind, fields⟩ := fp
+  obtain ⟨h1, h2, h3, h4, h5, h6⟩ := field_closure_bounds
+  have hc : ∀ k, closureOf (bFields, [form portable, kindName k]) (fieldMethod portable) =
+      match k with
+      | .unit => none
+      | .named => some ((bField, [form portable, nNo, tNo]), (bField, [form portable, nYes, tYes]))
+      | .unnamed => some ((bField, [form portable, nNo, tNo]), (bField, [form portable, nNo, tYes])) := by
+    intro k
+    cases portable <;> cases k
+    · exact h5
+    · exact h1
+    · exact h2
+    · exact h6
+    · exact h3
+    · exact h4
+  unfold fieldsTypecheck
+  simp only [hc]
+  cases kind
+  · simp only [fieldsOk]
+    cases fields with
+    | nil => simp
+    | cons c cs =>
+      simp only [List.isEmpty_cons, Bool.false_eq_true, iff_false]
+      intro h
+      obtain ⟨_, _, he, _⟩ := h c (List.mem_cons_self ..)
+      cases he
+  · simp only [fieldsOk, List.all_eq_true]
+    constructor
+    · intro h calls hm
+      obtain ⟨init, tgt, he, hr⟩ := h calls hm
+      cases he
+      exact (field_sigs_iff_fieldOk portable calls).1.1 hr
+    · intro h calls hm
+      exact ⟨_, _, rfl, (field_sigs_iff_fieldOk portable calls).1.2 (h calls hm)⟩
+  · simp only [fieldsOk, List.all_eq_true]
+    constructor
+    · intro h calls hm
+      obtain ⟨init, tgt, he, hr⟩ := h calls hm
+      cases he
+      exact (field_sigs_iff_fieldOk portable calls).2.1 hr
+    · intro h calls hm
+      exact ⟨_, _, rfl, (field_sigs_iff_fieldOk portable calls).2.2 (h calls hm)⟩
+
+/-- the closure of `Variants::variant` returns `VariantBuilder<F, IndexAssigned>`, and every `fields(..)` argument is admitted -/
+def variantTypechecks (portable : Bool) (calls : List VStep) : Prop :=
+  runSig Expected.Typestate.sigs (bVariant, [form portable, iNo]) (calls.map (vMethod portable)) = some (bVariant, [form portable, iYes]) ∧
+  ∀ c ∈ calls, match c with | .fields fp => fieldsTypecheck portable fp | _ => True
+
+theorem variant_typechecks_iff (portable : Bool) (calls : List VStep) : variantTypechecks portable calls ↔ variantOk calls = true := by
+  unfold variantTypechecks variantOk
+  rw [variant_sigs_iff, Bool.and_eq_true, beq_iff_eq, List.all_eq_true]
+  refine and_congr Iff.rfl (forall_congr' fun c => imp_congr_right fun _ => ?_)
+  cases c <;> simp [fields_typecheck_iff]
+
+/-- a chain yields a `Type` and the argument of its terminal is admitted -/
+def progTypechecks (portable : Bool) (prog : List TStep) : Prop :=
+  runSig Expected.Typestate.sigs (bType, [form portable, pNo]) (prog.map (tMethod portable)) = some (bTy, [form portable]) ∧
+  (match prog.getLast? with
+   | some (.composite fp) => fieldsTypecheck portable fp
+   | some (.variant vs) => ∀ v ∈ vs, variantTypechecks portable v
+   | _ => True)
+
+/-- **the typestate model is the reading of the signatures**: for every builder program, in either form -/
+theorem typechecks_iff_accepts (portable : Bool) (prog : List TStep) : progTypechecks portable prog ↔ accepts prog = true := by
+  unfold progTypechecks accepts
+  rw [type_sigs_iff]
+  simp only [Bool.and_eq_true, beq_iff_eq]
+  cases hl : prog.getLast? with
+  | none => simp
+  | some c => cases c <;> simp [isTerminal, fields_typecheck_iff, variant_typechecks_iff, and_assoc]
+
 /-! non-vacuity -/
 example : runSig Expected.Typestate.sigs (bField, [fMeta, nNo, tNo]) [mTy, mName, mTypeName, mDocs] = some (bField, [fMeta, nYes, tYes]) := by decide
 example : runSig Expected.Typestate.sigs (bField, [fMeta, nNo, tNo]) [mTy, mTy] = none := by decide
